@@ -4,7 +4,10 @@ from ..core import parse_sx
 
 class C01(Prop):
     ID = "C01"
-    THEOREMS = ["C01_accept_iff", "C01_query_sections", "C01_full_span_read", "C01_roundtrip_exact"]
+    THEOREMS = ["C01_accept_iff", "C01_query_sections", "C01_full_span_read", "C01_roundtrip_exact",
+                "C01_read_info", "C01_chrom_table", "C01_accepted_runs", "C01_query", "C01_roundtrip",
+                "C01_roundtrip_multipass", "C01_roundtrip_file_exact", "C01_same_regions",
+                "C01_zero_length_boundary_refuted"]
     RULE = ("bbi cases: 1-6 chromosomes (names whose first-appearance, lexicographic and id order differ), per chromosome a layout "
             "from the grammar dense/sparse/adjacent/zero-length/edge-touching/long gap/long item, arbitrary finite f32 bit patterns, "
             "options from compress x items_per_slot{1,2,3,7,1024} x block_size{2,3,4,5,256} x zoom modes x single/two pass; "
